@@ -6,4 +6,4 @@ Extraction "extract/ModelFrontend.ml"
   Utf8.valid_utf8 Utf8.span_wfb
   GenLexer.tok_name GenLexer.lexerr_msg
   Lexer.lex Lexer.shipped Lexer.repaired Lexer.variant_of_source
-  Render.render_diagnostic Render.compute_line_starts.
+  Render.render_diagnostic Render.render_lines Render.compute_line_starts.
